@@ -1,16 +1,21 @@
 (* C13/Properties.v — the property theorems only.  Each is closed by [exact]/[apply] of a lemma from
    Proofs.v (or by computation for witnesses) and followed by Print Assumptions.
 
-   The model has one [variant] flag per recorded defect.  [fixed var] = the two defects repaired in /repo
-   (1761ed1 persist-before-swap, 61c97e1 atomic Set) are repaired; /repo HEAD is [FrrDefect] (fixed, but a
-   failed routing-daemon reload is not followed by a reload of the running configuration), [Repaired] has
-   that repaired too (fixes/C13_frr_restore.patch).  The theorems are stated for EVERY fixed variant, so they
-   hold of HEAD; the one clause HEAD violates — the daemon after a reload that failed half-way — carries the
-   explicit hypothesis [v_frr_restore var = true \/ f_reload f <> 2] and has a [_refuted] witness for HEAD. *)
+   /repo HEAD is the variant [Repaired]: all recorded findings are fixed (persist-before-swap 1761ed1,
+   atomic Set 61c97e1, daemon restore after a failed reload e792c74).  The model keeps one [variant] flag per
+   former defect only so that the [_refuted] theorems at the end can exhibit, as historical witnesses, what
+   the tree did before each fix; the correspondence check compares /repo with [Repaired] alone.
+   [fixed var] = the first two are repaired; the theorems are stated for every such variant (hence for
+   HEAD), the daemon clause additionally under [v_frr_restore var = true \/ f_reload f <> 2].
+   "Reachable" means: reachable from an initial state by a history of northbound operations
+   ([forallb plain ops]: Create, Close, Delete, Set, Commit, Rollback-to-version, time).  LoadConfig and the
+   start-up path (ApplyLoadedConfig) replace the whole candidate / alias it with running by design; they
+   are operations of the model and of the correspondence, and the theorems that do not need reachability
+   (C13_atomic, C13_commit_validates, C13_create_granted, the call-stream theorems) cover them. *)
 From OV Require Import Common.Base C13.Model C13.Proofs.
 
-Theorem C13_head_is_fixed : fixed FrrDefect /\ fixed Repaired.
-Proof. split; [apply fixed_head | apply fixed_repaired]. Qed.
+Theorem C13_head_is_fixed : fixed Repaired /\ v_frr_restore Repaired = true.
+Proof. split; [apply fixed_repaired | reflexivity]. Qed.
 Print Assumptions C13_head_is_fixed.
 
 (* reachable states, from any initial running configuration (running and startup one object or two), under
@@ -18,8 +23,9 @@ Print Assumptions C13_head_is_fixed.
    the lock, its configuration OBJECT is neither the running nor the startup object, its candidate agrees
    with running outside the paths it set *)
 Theorem C13_reachable_invariant :
-  forall var reg g r shared ops, fixed var -> Inv (run var reg g (init_state_gen r shared) ops).
-Proof. intros. apply inv_run, inv_init. assumption. Qed.
+  forall var reg g r shared ops, fixed var -> forallb plain ops = true ->
+  Inv (run var reg g (init_state_gen r shared) ops).
+Proof. intros. apply inv_run; auto. apply inv_init. Qed.
 Print Assumptions C13_reachable_invariant.
 
 (* ATOMIC.  Whatever the state (reachable or not), whatever fails — session lookup, dependency resolution,
@@ -72,7 +78,7 @@ Print Assumptions C13_apply_stream.
    configuration, and the new running configuration differs from the previous one only at leaves whose path
    was set in this session and at containers that are prefixes of such paths; nothing is rolled back. *)
 Theorem C13_frame :
-  forall var reg g r shared ops id f st' evs, fixed var ->
+  forall var reg g r shared ops id f st' evs, fixed var -> forallb plain ops = true ->
   let st := run var reg g (init_state_gen r shared) ops in
   do_commit var reg g st id f = (st', ROk, evs) ->
   exists s, find_session (sessions (expire st)) id = Some s /\ s_changes s <> [] /\
@@ -83,19 +89,19 @@ Theorem C13_frame :
     (forall c, has_cont (running st') c = true -> has_cont (running st) c = true \/
                exists p, In p (map c_path (s_changes s)) /\ is_prefix c p) /\
     rolled evs = [].
-Proof. intros var reg g r shared ops id f st' evs HV st H. eapply frame; eauto. apply inv_run, inv_init; auto. Qed.
+Proof. intros var reg g r shared ops id f st' evs HV HP st H. eapply frame; eauto. apply inv_run; auto. apply inv_init. Qed.
 Print Assumptions C13_frame.
 
 (* ... and exactly: the previous running configuration with the session's Sets replayed in order *)
 Theorem C13_commit_publishes_replay :
-  forall var reg g r shared ops id f st' evs, fixed var ->
+  forall var reg g r shared ops id f st' evs, fixed var -> forallb plain ops = true ->
   let st := run var reg g (init_state_gen r shared) ops in
   do_commit var reg g st id f = (st', ROk, evs) ->
   exists s, find_session (sessions (expire st)) id = Some s /\
             running st' = replay reg (running st) (s_changes s).
 Proof.
-  intros var reg g r shared ops id f st' evs HV st H.
-  eapply commit_publishes_replay; eauto; [apply inv_run, inv_init; auto | apply inv2_run; [auto | apply inv_init | apply inv2_init]].
+  intros var reg g r shared ops id f st' evs HV HP st H.
+  eapply commit_publishes_replay; eauto; [apply inv_run; auto; apply inv_init | apply inv2_run; auto; [apply inv_init | apply inv2_init]].
 Qed.
 Print Assumptions C13_commit_publishes_replay.
 
@@ -103,36 +109,36 @@ Print Assumptions C13_commit_publishes_replay.
    file, the version files or the version list is a Commit that returns ok, and the only operation that
    touches the routing daemon is a Commit. *)
 Theorem C13_isolation :
-  forall var reg g r shared ops o st' res evs, fixed var ->
+  forall var reg g r shared ops o st' res evs, fixed var -> forallb plain ops = true -> plain o = true ->
   let st := run var reg g (init_state_gen r shared) ops in
   step var reg g st o = (st', res, evs) ->
   (persisted st' <> persisted st -> exists id f, o = OCommit id f /\ res = ROk) /\
   (frr st' <> frr st -> exists id f, o = OCommit id f).
-Proof. intros var reg g r shared ops o st' res evs HV st H. eapply isolation; eauto. apply inv_run, inv_init; auto. Qed.
+Proof. intros var reg g r shared ops o st' res evs HV HP HO st H. eapply isolation; eauto. apply inv_run; auto. apply inv_init. Qed.
 Print Assumptions C13_isolation.
 
 (* a Set writes through the session's configuration object; in a reachable state no other slot holds that
    object, so running and startup do not change *)
 Theorem C13_set_invisible :
-  forall var reg g r shared ops id p v vf st' res, fixed var ->
+  forall var reg g r shared ops id p v vf st' res, fixed var -> forallb plain ops = true ->
   let st := run var reg g (init_state_gen r shared) ops in
   do_set var reg st id p v vf = (st', res) -> running st' = running st /\ startup st' = startup st.
 Proof.
-  intros var reg g r shared ops id p v vf st' res HV st H.
-  eapply inv_set in H; [apply H | auto | apply inv_run, inv_init; auto].
+  intros var reg g r shared ops id p v vf st' res HV HP st H.
+  eapply inv_set in H; [apply H | auto | apply inv_run; auto; apply inv_init].
 Qed.
 Print Assumptions C13_set_invisible.
 
 (* SINGLE LOCK / NO SHARING.  In every reachable state there is at most one candidate session, it is the
    lock owner, without a session the lock is free, and the session's object is neither running nor startup. *)
 Theorem C13_single_lock :
-  forall var reg g r shared ops, fixed var ->
+  forall var reg g r shared ops, fixed var -> forallb plain ops = true ->
   let st := run var reg g (init_state_gen r shared) ops in
   (forall s1 s2, In s1 (sessions st) -> In s2 (sessions st) -> s1 = s2) /\
   (forall s, In s (sessions st) -> lock st = Some (s_id s)) /\
   (sessions st = [] -> lock st = None) /\
   (forall s, In s (sessions st) -> s_oid s <> running_oid st /\ s_oid s <> startup_oid st).
-Proof. intros. apply single_lock, inv_run, inv_init; auto. Qed.
+Proof. intros. apply single_lock, inv_run; auto. apply inv_init. Qed.
 Print Assumptions C13_single_lock.
 
 Theorem C13_create_refused :
@@ -148,12 +154,24 @@ Theorem C13_create_granted :
 Proof. exact create_granted. Qed.
 Print Assumptions C13_create_granted.
 
+(* VALIDATED.  In ANY state and for every variant — after failed commits, after LoadConfig replaced the
+   candidate, during start-up — a Commit that returns ok has evaluated the pre-commit validation (MSS-clamp
+   parent MTU, no two subscriber-group ranges claiming one (S-VLAN, C-VLAN)) on exactly the candidate it
+   publishes.  (There is no "already validated" state in the manager.) *)
+Theorem C13_commit_validates :
+  forall var reg g st id f st' evs,
+  do_commit var reg g st id f = (st', ROk, evs) ->
+  exists s, find_session (sessions (expire st)) id = Some s /\ precommit_ok g (s_cand s) = true /\
+            running st' = s_cand s.
+Proof. exact commit_validates. Qed.
+Print Assumptions C13_commit_validates.
+
 (* IDLE EXPIRY (conf.go:817-832).  Every API call first expires sessions idle for 15 min or longer.  In every
    reachable state: expiry touches no datastore and not the daemon; sessions that are not idle leave the
    whole state unchanged; an idle session disappears together with its lock, the next Create is granted and
    every call naming the expired session is refused. *)
 Theorem C13_idle_expiry :
-  forall var reg g r shared ops, fixed var ->
+  forall var reg g r shared ops, fixed var -> forallb plain ops = true ->
   let st := run var reg g (init_state_gen r shared) ops in
   (persisted (expire st) = persisted st /\ frr (expire st) = frr st) /\
   ((forall s, In s (sessions st) -> (s_idle s <? idle_limit)%N = true) -> expire st = st) /\
@@ -164,7 +182,7 @@ Theorem C13_idle_expiry :
                 (forall f, do_commit var reg g st id f = (expire st, RNoSession, [])) /\
                 do_close st id = (expire st, RNoSession) /\ do_delete st id = (expire st, RNoSession)).
 Proof.
-  intros var reg g r shared ops HV st. assert (HI : Inv st) by (apply inv_run, inv_init; auto).
+  intros var reg g r shared ops HV HP st. assert (HI : Inv st) by (apply inv_run; auto; apply inv_init).
   split; [apply expire_persisted|]. split; [apply expire_alive|].
   intros s Hin Ha. destruct (expire_idle _ _ HI Hin Ha) as [A B].
   repeat split; auto.
@@ -185,8 +203,8 @@ Print Assumptions C13_set_touches.
 (* ---------------------------------------------------------------- witnesses *)
 (* registry: 0 = a.<*>.m (int leaf under a map entry), 1 = b.e (bool leaf under a pointer, reload) *)
 Definition ex_reg : registry :=
-  [ {| h_pat := [PLit 1; PWild; PLit 2]; h_kind := KInt; h_conts := [1; 2]%nat; h_deps := []; h_frr := false |};
-    {| h_pat := [PLit 5; PLit 6]; h_kind := KBool; h_conts := [1]%nat; h_deps := []; h_frr := true |} ]%N.
+  [ {| h_pat := [PLit 1; PWild; PLit 2]; h_kind := KInt; h_conts := [1; 2]%nat; h_deps := []; h_frr := false; h_typed := false |};
+    {| h_pat := [PLit 5; PLit 6]; h_kind := KBool; h_conts := [1]%nat; h_deps := []; h_frr := true; h_typed := false |} ]%N.
 Definition ex_p : path := [1; 3; 2]%N.          (* a.x.m *)
 Definition ex_q : path := [1; 4; 2]%N.          (* a.y.m *)
 Definition ex_b : path := [5; 6]%N.             (* b.e   *)
@@ -201,23 +219,23 @@ Definition st_of (var : variant) := run var ex_reg no_guard (init_state empty_st
 (* non-vacuity of C13_atomic for HEAD: every failure point is reachable and rolls back something — also
    when the first Rollback call itself fails, the second is still made *)
 Example C13_atomic_nonvacuous :
-  let st := st_of FrrDefect in
-  snd (fst (do_commit FrrDefect ex_reg no_guard st 1 (f_with 2 0 false 0 false false))) = RApplyFail /\
-  snd (fst (do_commit FrrDefect ex_reg no_guard st 1 (f_with 0 0 true 0 false false))) = RFrrTest /\
-  snd (fst (do_commit FrrDefect ex_reg no_guard st 1 (f_with 0 0 false 1 false false))) = RFrrReload /\
-  snd (fst (do_commit FrrDefect ex_reg no_guard st 1 (f_with 0 0 false 0 true false))) = RStartupSave /\
-  snd (do_commit FrrDefect ex_reg no_guard st 1 (f_with 0 1 false 0 true false)) =
+  let st := st_of Repaired in
+  snd (fst (do_commit Repaired ex_reg no_guard st 1 (f_with 2 0 false 0 false false))) = RApplyFail /\
+  snd (fst (do_commit Repaired ex_reg no_guard st 1 (f_with 0 0 true 0 false false))) = RFrrTest /\
+  snd (fst (do_commit Repaired ex_reg no_guard st 1 (f_with 0 0 false 1 false false))) = RFrrReload /\
+  snd (fst (do_commit Repaired ex_reg no_guard st 1 (f_with 0 0 false 0 true false))) = RStartupSave /\
+  snd (do_commit Repaired ex_reg no_guard st 1 (f_with 0 1 false 0 true false)) =
     [EApply ex_p (VInt 1500) true; EApply ex_b (VBool true) true; EFrrTest; EFrrReload; EFrrReload;
      ERollback ex_b (VBool true) false; ERollback ex_p (VInt 1500) true] /\
-  frr (fst (fst (do_commit FrrDefect ex_reg no_guard st 1 (f_with 0 0 false 0 true false)))) = Some (running st) /\
-  snd (fst (do_commit FrrDefect ex_reg ex_mss st 1 no_faults)) = RPrecommit.
+  frr (fst (fst (do_commit Repaired ex_reg no_guard st 1 (f_with 0 0 false 0 true false)))) = Some (running st) /\
+  snd (fst (do_commit Repaired ex_reg ex_mss st 1 no_faults)) = RPrecommit.
 Proof. vm_compute. repeat split. Qed.
 Print Assumptions C13_atomic_nonvacuous.
 
 (* non-vacuity of C13_frame / C13_isolation: a commit succeeds, changes running and loads the daemon *)
 Example C13_frame_nonvacuous :
-  let st := st_of FrrDefect in
-  let '(st', r, evs) := do_commit FrrDefect ex_reg no_guard st 1 (f_with 0 0 false 0 false true) in
+  let st := st_of Repaired in
+  let '(st', r, evs) := do_commit Repaired ex_reg no_guard st 1 (f_with 0 0 false 0 false true) in
   r = ROk /\ get_leaf (running st') ex_p = Some (SInt 1500) /\ get_leaf (running st) ex_p = None /\
   sessions st' = [] /\ lock st' = None /\ length (vmem st') = 1%nat /\ vfiles st' = [] /\
   frr st' = Some (running st') /\ running_oid st' = 3%N /\ startup_oid st' = 4%N.
@@ -225,16 +243,17 @@ Proof. vm_compute. repeat split. Qed.
 Print Assumptions C13_frame_nonvacuous.
 
 Example C13_idle_expiry_nonvacuous :
-  let st14 := run FrrDefect ex_reg no_guard (init_state empty_store) [OCreate; OTick 14] in
-  let st15 := run FrrDefect ex_reg no_guard (init_state empty_store) [OCreate; OTick 14; OTick 1] in
+  let st14 := run Repaired ex_reg no_guard (init_state empty_store) [OCreate; OTick 14] in
+  let st15 := run Repaired ex_reg no_guard (init_state empty_store) [OCreate; OTick 14; OTick 1] in
   expire st14 = st14 /\ snd (do_create st14) = RLocked /\
   sessions (expire st15) = [] /\ snd (do_create st15) = RId 2 /\
-  snd (do_set FrrDefect ex_reg st15 1 ex_p (VInt 1) false) = RNoSession.
+  snd (do_set Repaired ex_reg st15 1 ex_p (VInt 1) false) = RNoSession.
 Proof. vm_compute. repeat split. Qed.
 Print Assumptions C13_idle_expiry_nonvacuous.
 
-(* ---------------------------------------------------------------- what /repo HEAD violates (known finding) *)
-(* the reload fails after the daemon has taken the candidate (f_reload = 2): HEAD rolls the handlers back and
+(* ---------------------------------------------------------------- historical witnesses (all fixed in /repo) *)
+(* before e792c74 *)
+(* the reload fails after the daemon has taken the candidate (f_reload = 2): the tree before e792c74 rolled the handlers back and
    leaves the datastores alone, but the daemon stays on a configuration that is neither what it had nor the
    running one *)
 Theorem C13_daemon_refuted :
@@ -251,7 +270,6 @@ Proof.
 Qed.
 Print Assumptions C13_daemon_refuted.
 
-(* ---------------------------------------------------------------- what the tree violated before the fixes *)
 (* before 1761ed1 — startup-file write fails: Commit returns an error although running and startup were
    replaced, and nothing is rolled back *)
 Theorem C13_atomic_refuted :
@@ -324,7 +342,7 @@ Proof. exact Linearizable.mgr_ops_linearizable. Qed.
 Print Assumptions C13_linearizable.
 
 Example C13_linearizable_nonvacuous :
-  exists c, Linearizable.m_reach FrrDefect Linearizable.lx_reg no_guard Linearizable.lx_st0 Linearizable.lx_progs c /\
+  exists c, Linearizable.m_reach Repaired Linearizable.lx_reg no_guard Linearizable.lx_st0 Linearizable.lx_progs c /\
             Atomic.quiescent c /\ length (Atomic.c_hist c) = 10%nat /\
             get_leaf (running (Atomic.c_sh c tt)) Linearizable.lx_p = Some (SInt 1500).
 Proof.
